@@ -48,7 +48,15 @@ Inductive cbody :=
   | Big (n : N) (whead : bytes) (wlen : N) (racc : bool) (rlen : N) (req : bool)
       (* WriteMsg of an n-byte payload: first bytes and total length written; ReadMsg over a
          chunking pipe: accepted?, length read, bytes equal? *)
-  | E2E (e : option herr) (seen : robs).        (* real services: handler returns e; client ReadMsg *)
+  | E2E (e : option herr) (seen : robs)         (* real services: handler returns e; client ReadMsg *)
+  | Abandon (inners : list bytes) (reqs : list N) (got : list robs)
+      (* one ReadMsg call per entry of reqs (0 = runs to completion, 1 = given up through its
+         context while nothing had arrived; at most one given-up call pending at a time); one
+         message per call is written, in order; got = what the completed calls returned *)
+  | StalledWrites (inners : list bytes) (calls : list N) (wire : list bytes).
+      (* WriteMsg calls on a stream whose peer does not take bytes (0 = completed after the peer
+         resumed, 1 = given up through its context while stuck or queued); wire = the Write calls
+         that reached the network stream, in order *)
 
 Record case := { id : N; cb : cbody }.
 
@@ -213,8 +221,39 @@ Definition e2e_expect (e : option herr) (o : robs) : bool :=
         match o with OData _ => false | _ => true end
   end.
 
+Definition req_of (n : N) : req := if n =? 0 then ReqRead else ReqAbandoned.
+Definition data_body (i : bytes) : bytes := enc_streammsg (BData i).
+
+Fixpoint remove_one (b : bytes) (l : list bytes) : option (list bytes) :=
+  match l with
+  | [] => None
+  | y :: r => if bytes_eqb b y then Some r
+              else match remove_one b r with Some r' => Some (y :: r') | None => None end
+  end.
+Fixpoint perm_b (a b : list bytes) : bool :=
+  match a with
+  | [] => match b with [] => true | _ => false end
+  | y :: a' => match remove_one y b with Some b' => perm_b a' b' | None => false end
+  end.
+Definition head_eqb (a b : list bytes) : bool :=
+  match a, b with
+  | [], [] => true
+  | y :: _, z :: _ => bytes_eqb y z
+  | _, _ => false
+  end.
+Fixpoint count_b (b : bytes) (l : list bytes) : nat :=
+  match l with [] => O | y :: r => (if bytes_eqb b y then 1 else 0) + count_b b r end.
+Definition payloads_of (rs : list rres) : list bytes :=
+  flat_map (fun r => match r with RData p => [p] | _ => [] end) rs.
+
 Definition agrees (c : cbody) : bool :=
   match c with
+  | Abandon inners reqs got =>
+      Nat.eqb (length inners) (length reqs) &&
+      all2 readmsg_agrees (fst (serve (map req_of reqs) (map data_body inners))) got
+  | StalledWrites inners calls wire =>
+      let model := map (fun i => frame (data_body i)) inners in
+      Nat.eqb (length inners) (length calls) && perm_b model wire && head_eqb model wire
   | Session _ wops wseen stream pat rops rseen hdrs _ =>
       let st := feed_chunks (chunks_of pat (session_stream wseen stream)) in
       all2 write_agrees wops wseen && reads_agree hdrs (end_of st) (out st) rops rseen
@@ -319,6 +358,22 @@ Definition violation (c : cbody) : list string :=
         end
       else []
   | E2E None _ => []
+  | Abandon inners reqs got =>
+      (* with no call given up this is the ordinary round trip; a given-up call is outside the
+         claim (stated premise of C13_delivery), compared with the model only *)
+      if no_abandon (map req_of reqs) then
+        if all2 (fun i o => match o with OData u => bytes_eqb u i | _ => false end) inners got
+        then [] else ["roundtrip"%string]
+      else []
+  | StalledWrites inners calls wire =>
+      (* what reaches the reader: no frame that no call wrote, none more often than it was
+         written, and the frame of every completed call *)
+      let frs := out (feed_all (concat wire)) in
+      let bodies := map data_body inners in
+      let completed := flat_map (fun ic => if snd ic =? 0 then [data_body (fst ic)] else []) (combine inners calls) in
+      if forallb (fun f => Nat.leb 1 (count_b f bodies) && Nat.leb (count_b f frs) (count_b f bodies)) frs &&
+         forallb (fun b => Nat.leb 1 (count_b b frs)) completed
+      then [] else ["roundtrip"%string]
   end.
 
 Definition violations (cs : list case) : list (N * string) :=
@@ -332,4 +387,6 @@ Definition nontrivial (cs : list case) : list N :=
     | Big _ _ _ _ _ _ => true
     | E2E (Some _) _ => true
     | E2E None _ => false
+    | Abandon _ _ _ => true
+    | StalledWrites _ _ _ => true
     end) cs).
